@@ -1046,6 +1046,8 @@ class Engine:
         st = State("s0")
         for nm, ts in c.params.items():
             ty = self.ptype(ts)
+            if nm in c.static:
+                st.loc[nm] = self.const(c.static[nm]); continue      # the function is verified for this argument value
             st.loc[nm] = SV(z3.Const("arg_" + nm, ty.sort), ty)
             if ty.sort == Ref:
                 # declared object parameters exist (allocated) before the call and are not None
